@@ -30,7 +30,10 @@
 //! Passes (per schema kind): `full` = whole alphabet in every state, every oracle strict (contains the
 //! known defects, lower depth); `live-plain` / `live-ret` / `live-mixed` = state-aware alphabet without
 //! the constructs listed in findings.d/C05.json (see `enabled`), in the three RETURNING families, so
-//! the defect-free remainder reaches full depth.
+//! the defect-free remainder reaches full depth; `txn` = 14 operations without RETURNING over keys 1, 2 where an
+//! operation is a statement submitted in autocommit, as `BEGIN; stmt; COMMIT` or as `BEGIN; stmt; ROLLBACK`
+//! (the model brackets it the same way): a committed statement must leave exactly what the autocommit form
+//! leaves, a rolled-back one nothing — in SELECT *, in the header-answered COUNT(*) and in the lookups.
 use checks::sqlh::*;
 use refmodel::sql::expr::{add, col, eq, int};
 use refmodel::sql::rel::{ColumnDef, CreateIndex, CreateTable, Delete, Insert, Outcome, State, Stmt, TableDef, Update};
@@ -110,10 +113,42 @@ enum OpK {
     DelAll,
     Trunc,
 }
+/// how the statement is submitted: on its own (autocommit) or as the only statement of an explicit
+/// transaction that is committed / rolled back (`BEGIN; stmt; COMMIT|ROLLBACK` is ONE operation of a history)
+#[derive(Clone, Copy, PartialEq, Eq, Hash, Debug, PartialOrd, Ord)]
+enum Tx {
+    Auto,
+    Commit,
+    Rollback,
+}
+impl Tx {
+    fn name(self) -> &'static str {
+        match self {
+            Tx::Auto => "auto",
+            Tx::Commit => "commit",
+            Tx::Rollback => "rollback",
+        }
+    }
+    fn suffix(self) -> &'static str {
+        match self {
+            Tx::Auto => "",
+            Tx::Commit => "+C",
+            Tx::Rollback => "+RB",
+        }
+    }
+    fn end_stmt(self) -> Option<Stmt> {
+        match self {
+            Tx::Auto => None,
+            Tx::Commit => Some(Stmt::Commit),
+            Tx::Rollback => Some(Stmt::Rollback),
+        }
+    }
+}
 #[derive(Clone, Copy, PartialEq, Eq, Hash, Debug, PartialOrd, Ord)]
 struct Op {
     k: OpK,
     ret: bool,
+    tx: Tx,
 }
 impl Op {
     fn kind_name(self) -> &'static str {
@@ -135,7 +170,7 @@ impl Op {
         }
     }
     fn counter_name(self) -> String {
-        format!("op:{}{}", self.kind_name(), if self.ret { "+R" } else { "" })
+        format!("op:{}{}{}", self.kind_name(), if self.ret { "+R" } else { "" }, self.tx.suffix())
     }
 }
 fn base_ops() -> Vec<OpK> {
@@ -143,8 +178,23 @@ fn base_ops() -> Vec<OpK> {
 }
 /// every operation, plain first then with RETURNING * (TRUNCATE has no RETURNING)
 fn all_ops() -> Vec<Op> {
-    let mut v: Vec<Op> = base_ops().into_iter().map(|k| Op { k, ret: false }).collect();
-    v.extend(base_ops().into_iter().filter(|k| *k != OpK::Trunc).map(|k| Op { k, ret: true }));
+    let mut v: Vec<Op> = base_ops().into_iter().map(|k| Op { k, ret: false, tx: Tx::Auto }).collect();
+    v.extend(base_ops().into_iter().filter(|k| *k != OpK::Trunc).map(|k| Op { k, ret: true, tx: Tx::Auto }));
+    v
+}
+/// alphabet of pass `txn` (no RETURNING, keys 1 and 2): autocommit statements that build and empty the table,
+/// every statement kind inside BEGIN..COMMIT, and the single-/all-row kinds inside BEGIN..ROLLBACK
+fn txn_ops() -> Vec<Op> {
+    let mut v = vec![];
+    for k in [OpK::Ins(1), OpK::Ins(2), OpK::Del(1), OpK::DelAll] {
+        v.push(Op { k, ret: false, tx: Tx::Auto });
+    }
+    for k in [OpK::Ins(1), OpK::Ins2(1, 2), OpK::Upd(1), OpK::UpdAll, OpK::Del(1), OpK::DelAll] {
+        v.push(Op { k, ret: false, tx: Tx::Commit });
+    }
+    for k in [OpK::Ins(1), OpK::Upd(1), OpK::Del(1), OpK::DelAll] {
+        v.push(Op { k, ret: false, tx: Tx::Rollback });
+    }
     v
 }
 
@@ -213,12 +263,24 @@ impl CStmt {
         let sql = stmt.to_sql();
         CStmt { op, c, stmt, sql }
     }
+    /// the statement with its transaction bracket, for display
+    fn full_sql(&self) -> String {
+        match self.op.tx {
+            Tx::Auto => self.sql.clone(),
+            Tx::Commit => format!("BEGIN; {}; COMMIT", self.sql),
+            Tx::Rollback => format!("BEGIN; {}; ROLLBACK", self.sql),
+        }
+    }
     /// the value counter of the statement at position `step` of a history
     fn at(op: Op, step: usize, kind: Kind, strict: bool) -> CStmt {
         CStmt::new(op, 100 * (step as i64 + 1), kind, strict)
     }
     fn to_json(&self) -> Value {
-        json!({"op": self.op.kind_name(), "keys": self.op.keys(), "ret": self.op.ret, "c": self.c})
+        if self.op.tx == Tx::Auto {
+            json!({"op": self.op.kind_name(), "keys": self.op.keys(), "ret": self.op.ret, "c": self.c})
+        } else {
+            json!({"op": self.op.kind_name(), "keys": self.op.keys(), "ret": self.op.ret, "c": self.c, "tx": self.op.tx.name()})
+        }
     }
     fn from_json(v: &Value, kind: Kind, strict: bool) -> Option<CStmt> {
         let keys: Vec<u8> = v["keys"].as_array()?.iter().filter_map(|x| x.as_u64().map(|k| k as u8)).collect();
@@ -232,11 +294,16 @@ impl CStmt {
             ("TRUNC", []) => OpK::Trunc,
             _ => return None,
         };
-        Some(CStmt::new(Op { k, ret: v["ret"].as_bool()? }, v["c"].as_i64()?, kind, strict))
+        let tx = match v["tx"].as_str() {
+            Some("commit") => Tx::Commit,
+            Some("rollback") => Tx::Rollback,
+            _ => Tx::Auto,
+        };
+        Some(CStmt::new(Op { k, ret: v["ret"].as_bool()?, tx }, v["c"].as_i64()?, kind, strict))
     }
 }
 fn history_json(kind: Kind, pass: &str, h: &[CStmt]) -> Value {
-    json!({"kind": kind.name(), "pass": pass, "history": h.iter().map(|c| c.to_json()).collect::<Vec<_>>(), "sql": h.iter().map(|c| vcore::util::clip(&c.sql, 120)).collect::<Vec<_>>()})
+    json!({"kind": kind.name(), "pass": pass, "history": h.iter().map(|c| c.to_json()).collect::<Vec<_>>(), "sql": h.iter().map(|c| vcore::util::clip(&c.full_sql(), 120)).collect::<Vec<_>>()})
 }
 
 /// canonical operation pattern: keys renamed k, j, m in order of first appearance, values dropped
@@ -268,6 +335,7 @@ fn pattern(h: &[CStmt]) -> String {
         if c.op.ret {
             s.push_str("+R");
         }
+        s.push_str(c.op.tx.suffix());
         parts.push(s);
     }
     format!("[{}]", parts.join(";"))
@@ -368,6 +436,39 @@ impl Track {
     }
 }
 
+/// the operation on the model: the statement, bracketed by BEGIN .. COMMIT / ROLLBACK when the operation says so
+/// (a rolled-back statement leaves no tombstone bookkeeping behind: its rows were never deleted for the model)
+fn model_step(tr: &mut Track, cs: &CStmt) -> Result<Outcome, refmodel::sql::rel::ModelErr> {
+    match cs.op.tx.end_stmt() {
+        None => {
+            tr.before(cs.op);
+            cs.stmt.apply(&mut tr.st)
+        }
+        Some(end) => {
+            if cs.op.tx == Tx::Commit {
+                tr.before(cs.op);
+            }
+            Stmt::Begin.apply(&mut tr.st).unwrap_or_else(|e| vcore::machinery(&format!("C05: model refuses BEGIN: {e:?}")));
+            let r = cs.stmt.apply(&mut tr.st);
+            end.apply(&mut tr.st).unwrap_or_else(|e| vcore::machinery(&format!("C05: model refuses {}: {e:?}", end.to_sql())));
+            r
+        }
+    }
+}
+/// the operation on the database: result of the statement itself and, if BEGIN / COMMIT / ROLLBACK was refused,
+/// which one and how
+fn exec_op(t: &TestDb, cs: &CStmt) -> (Res, Option<(&'static str, Res)>) {
+    let Some(end) = cs.op.tx.end_stmt() else { return (t.exec(&cs.sql), None) };
+    let b = t.exec("BEGIN");
+    if !b.ok() {
+        return (b.clone(), Some(("begin", b)));
+    }
+    let got = t.exec(&cs.sql);
+    let e = t.exec(&end.to_sql());
+    let bad = if e.ok() { None } else { Some((if cs.op.tx == Tx::Commit { "commit" } else { "rollback" }, e)) };
+    (got, bad)
+}
+
 fn fresh_db(base: &Path, name: &str, kind: Kind) -> TestDb {
     let t = TestDb::create(base, name).unwrap_or_else(|e| vcore::machinery(&format!("create database: {e}")));
     for s in kind.ddl() {
@@ -393,9 +494,11 @@ fn rows_cls(exp: &[Row], obs: &[Row]) -> &'static str {
 /// failing oracle (empty = agreement).
 fn step(t: &TestDb, tr: &mut Track, cs: &CStmt, kind: Kind, strict: bool, plant: Plant, mut rep: Option<&mut Reporter>) -> Vec<Fail> {
     let mut fails = vec![];
-    tr.before(cs.op);
-    let exp = cs.stmt.apply(&mut tr.st);
-    let mut got = t.exec(&cs.sql);
+    let exp = model_step(tr, cs);
+    let (mut got, txn_bad) = exec_op(t, cs);
+    if let Some((what, r)) = &txn_bad {
+        fails.push(fail("error", &format!("ok>{what}-refused"), format!("{} succeeds", cs.full_sql().chars().take(100).collect::<String>()), format!("{} => {}", what.to_uppercase(), r.show())));
+    }
     if plant == Plant::ReturningNullDefault && kind == Kind::Dflt {
         if let (OpK::Ins(_) | OpK::Ins2(..), Res::Affected(_, Some(rows))) = (cs.op.k, &mut got) {
             let keep = if matches!(cs.op.k, OpK::Ins(_)) { 2 } else { 3 };
@@ -619,19 +722,24 @@ fn shrink(base: &Path, kind: Kind, h: &[CStmt], oracle: &str, cls: &str, strict:
         // simplify one statement: drop RETURNING, split a two-row insert
         for i in 0..cur.len() {
             let mut alts: Vec<Op> = vec![];
+            let tx = cur[i].op.tx;
+            // a statement that fails just as well without its transaction bracket is blamed without it
+            if tx != Tx::Auto {
+                alts.push(Op { k: cur[i].op.k, ret: cur[i].op.ret, tx: Tx::Auto });
+            }
             if cur[i].op.ret {
-                alts.push(Op { k: cur[i].op.k, ret: false });
+                alts.push(Op { k: cur[i].op.k, ret: false, tx });
             }
             if let OpK::Ins2(a, b) = cur[i].op.k {
-                alts.push(Op { k: OpK::Ins(a), ret: cur[i].op.ret });
-                alts.push(Op { k: OpK::Ins(b), ret: cur[i].op.ret });
+                alts.push(Op { k: OpK::Ins(a), ret: cur[i].op.ret, tx });
+                alts.push(Op { k: OpK::Ins(b), ret: cur[i].op.ret, tx });
             }
             // set-up statements (not the failing one): prefer the keyed single-row form
             if i + 1 < cur.len() {
                 for k in 1..=3u8 {
                     match cur[i].op.k {
-                        OpK::DelAll => alts.push(Op { k: OpK::Del(k), ret: cur[i].op.ret }),
-                        OpK::UpdAll => alts.push(Op { k: OpK::Upd(k), ret: cur[i].op.ret }),
+                        OpK::DelAll => alts.push(Op { k: OpK::Del(k), ret: cur[i].op.ret, tx }),
+                        OpK::UpdAll => alts.push(Op { k: OpK::Upd(k), ret: cur[i].op.ret, tx }),
                         _ => {}
                     }
                 }
@@ -693,6 +801,9 @@ fn embeddings(h: &[CStmt], min: &[CStmt], kind: Kind, strict: bool) -> Vec<Vec<C
             if !(mo.ret == ho.ret || (ho.ret && !mo.ret)) {
                 continue;
             }
+            if !(mo.tx == ho.tx || mo.tx == Tx::Auto) {
+                continue;
+            }
             // candidate key bindings (min key -> h key) that make h[i] an instance / generalisation of min[mi]
             let options: Vec<Vec<(u8, u8)>> = match (mo.k, ho.k) {
                 (OpK::Ins(x), OpK::Ins(a)) | (OpK::Upd(x), OpK::Upd(a)) | (OpK::Del(x), OpK::Del(a)) => vec![vec![(x, a)]],
@@ -719,7 +830,7 @@ fn embeddings(h: &[CStmt], min: &[CStmt], kind: Kind, strict: bool) -> Vec<Vec<C
                         OpK::Ins2(..) => OpK::Ins2(opt[0].1, opt[1].1),
                         o => o,
                     };
-                    pick.push((i, Op { k, ret: mo.ret }));
+                    pick.push((i, Op { k, ret: mo.ret, tx: mo.tx }));
                     go(h, min, i + 1, mi + 1, map, pick, out);
                     pick.pop();
                 }
@@ -757,6 +868,8 @@ enum Family {
     Plain,
     /// every INSERT/UPDATE/DELETE carries RETURNING * (12 operations + TRUNCATE)
     Ret,
+    /// `txn_ops()`: 4 autocommit + 6 committed + 4 rolled-back operations
+    Txn,
 }
 struct Pass {
     name: &'static str,
@@ -765,26 +878,31 @@ struct Pass {
     depth_q: usize,
     depth_t: usize,
 }
-const PASSES: [Pass; 4] = [
+const PASSES: [Pass; 5] = [
+    Pass { name: "txn", rule: Rule::Full, family: Family::Txn, depth_q: 3, depth_t: 4 },
     Pass { name: "full", rule: Rule::Full, family: Family::Mixed, depth_q: 3, depth_t: 4 },
     Pass { name: "live-plain", rule: Rule::Live, family: Family::Plain, depth_q: 4, depth_t: 6 },
     Pass { name: "live-ret", rule: Rule::Live, family: Family::Ret, depth_q: 4, depth_t: 6 },
     Pass { name: "live-mixed", rule: Rule::Live, family: Family::Mixed, depth_q: 4, depth_t: 5 },
 ];
 fn pass_by_name(n: &str) -> &'static Pass {
-    PASSES.iter().find(|p| p.name == n).unwrap_or(&PASSES[0])
+    PASSES.iter().find(|p| p.name == n).unwrap_or_else(|| PASSES.iter().find(|p| p.name == "full").expect("pass full"))
 }
 impl Pass {
     fn strict(&self) -> bool {
         self.rule == Rule::Full
     }
     fn ops(&self) -> Vec<Op> {
+        if self.family == Family::Txn {
+            return txn_ops();
+        }
         all_ops()
             .into_iter()
             .filter(|op| match self.family {
                 Family::Mixed => true,
                 Family::Plain => !op.ret,
                 Family::Ret => op.ret || op.k == OpK::Trunc,
+                Family::Txn => false,
             })
             .collect()
     }
@@ -848,8 +966,7 @@ fn count_ext(pass: &Pass, kind: Kind, tr: &Track, step: usize, rem: usize, memo:
     for op in enabled(pass, kind, tr) {
         let cs = CStmt::at(op, step, kind, pass.strict());
         let mut t2 = tr.clone();
-        t2.before(op);
-        let _ = cs.stmt.apply(&mut t2.st);
+        let _ = model_step(&mut t2, &cs);
         n += 1 + count_ext(pass, kind, &t2, step + 1, rem - 1, memo);
     }
     memo.insert(key, n);
@@ -921,7 +1038,7 @@ impl<'a> Explorer<'a> {
         }
         let t = self.fresh(kind);
         for (i, op) in [OpK::Ins(1), OpK::Ins(2), OpK::Ins(3)].into_iter().enumerate() {
-            let _ = t.exec(&CStmt::at(Op { k: op, ret: false }, i, kind, true).sql);
+            let _ = t.exec(&CStmt::at(Op { k: op, ret: false, tx: Tx::Auto }, i, kind, true).sql);
         }
         let p = explain(t.db(), "SELECT * FROM t WHERE id = 2").unwrap_or_default();
         let via_index = p.contains("IndexScan");
@@ -1047,10 +1164,9 @@ impl<'a> Explorer<'a> {
                 }
             } else {
                 // known-good prefix statement: execute without oracle, keep the model in step
-                let _ = t.exec(&cs.sql);
+                let _ = exec_op(&t, &cs);
                 self.plant_after(&t, &cs);
-                tr.before(cs.op);
-                let _ = cs.stmt.apply(&mut tr.st);
+                let _ = model_step(&mut tr, &cs);
                 let rows = tr.st.rows("t");
                 tr.note_values(&rows);
                 if let Some(info) = self.known.get(&(pi, kind, ops[..=i].to_vec())) {
@@ -1092,8 +1208,7 @@ impl<'a> Explorer<'a> {
                 }
             } else if !self.is_fatal(pi, kind, ops) {
                 let mut t2 = tr.clone();
-                t2.before(op);
-                let _ = CStmt::at(op, ops.len() - 1, kind, pass.strict()).stmt.apply(&mut t2.st);
+                let _ = model_step(&mut t2, &CStmt::at(op, ops.len() - 1, kind, pass.strict()));
                 self.walk(rep, pi, kind, ops, &t2, len, split, depth);
             }
             ops.pop();
@@ -1145,8 +1260,7 @@ impl<'a> Explorer<'a> {
                                 let mut o2 = ops.clone();
                                 o2.push(op);
                                 let mut t2 = tr.clone();
-                                t2.before(op);
-                                let _ = CStmt::at(op, ops.len(), kind, pass.strict()).stmt.apply(&mut t2.st);
+                                let _ = model_step(&mut t2, &CStmt::at(op, ops.len(), kind, pass.strict()));
                                 next.push((o2, t2));
                             }
                         }
@@ -1183,12 +1297,12 @@ impl Check for C05 {
         let mut s = Spec::new(
             "C05",
             "model_checking",
-            "a case is one history: a sequence of statements over the alphabet {INSERT k (k in 1..3, fresh value), two-row INSERT, UPDATE SET a=c WHERE id=k, UPDATE SET a=a+1, DELETE WHERE id=k, DELETE, TRUNCATE; each also with RETURNING *} of every length up to the pass depth, per schema kind (no PK / INT PRIMARY KEY / PK + secondary index / PK + 1.5 KB TEXT / PK + DEFAULT columns that the INSERTs omit through a column list), executed from a fresh database in lock-step with the relational model; the oracle (error class, affected count, RETURNING bag, SELECT * bag, COUNT(*), point lookups per key, secondary-index lookups per value) judges the last statement, prefixes having been judged as shorter histories (shortest first). Pass `full`: all 25 operations in every state; passes `live-*`: state-aware alphabet without the constructs of the open findings (plain / all-RETURNING / mixed families). State = executed history, transition = its last statement. Distinct = distinct (schema kind, operation sequence); non-trivial = the last statement is an INSERT or changes the model table.",
+            "a case is one history: a sequence of statements over the alphabet {INSERT k (k in 1..3, fresh value), two-row INSERT, UPDATE SET a=c WHERE id=k, UPDATE SET a=a+1, DELETE WHERE id=k, DELETE, TRUNCATE; each also with RETURNING *} of every length up to the pass depth, per schema kind (no PK / INT PRIMARY KEY / PK + secondary index / PK + 1.5 KB TEXT / PK + DEFAULT columns that the INSERTs omit through a column list), executed from a fresh database in lock-step with the relational model; the oracle (error class, affected count, RETURNING bag, SELECT * bag, COUNT(*), point lookups per key, secondary-index lookups per value) judges the last statement, prefixes having been judged as shorter histories (shortest first). Pass `full`: all 25 operations in every state; pass `txn`: {INSERT 1, INSERT 2, DELETE 1, DELETE all} in autocommit, {INSERT 1, two-row INSERT, UPDATE 1, UPDATE all, DELETE 1, DELETE all} as BEGIN; stmt; COMMIT and {INSERT 1, UPDATE 1, DELETE 1, DELETE all} as BEGIN; stmt; ROLLBACK (one operation each), every oracle after the closing COMMIT / ROLLBACK, depth 3 (quick) / 4; passes `live-*`: state-aware alphabet without the constructs of the open findings (plain / all-RETURNING / mixed families). State = executed history, transition = its last statement. Distinct = distinct (schema kind, operation sequence); non-trivial = the last statement is an INSERT or changes the model table.",
         );
         s.assumptions = &[
             "reference semantics = refmodel::sql::rel (cross-checked against SQLite); TRUNCATE's affected count is taken to be the number of rows removed (ExecuteResult::Truncate reports rows_affected)",
             "COUNT(*) and the point lookups are judged against the rows the same database shows through SELECT * (self-consistency), SELECT * against the model",
-            "single handle, autocommit, WAL off (default); the histories contain no transaction control (C07/C08) and no constraint other than PRIMARY KEY (C09)",
+            "single handle, WAL off (default); autocommit except pass txn, whose transactions hold exactly one statement (multi-statement transactions, savepoints, second handles: C07/C08); no constraint other than PRIMARY KEY (C09)",
             "passes live-*: (KF-C05-06) the TOAST column of RETURNING rows is not compared, (KF-C05-07) secondary-index lookups are not judged, (KF-C05-08) UPDATE by key on the TOAST schema sets only a; statements covering tombstoned rows, partially failing two-row INSERTs, UPDATE..WHERE id=k RETURNING on pk/pkidx and WHERE id=k for never-inserted keys are outside their alphabet (pass full keeps all of them)",
         ];
         s.cap_quick_s = 90;
@@ -1202,7 +1316,7 @@ impl Check for C05 {
     }
 
     fn run(&self, ctx: &Ctx, rep: &mut Reporter) {
-        for c in ["pk_point_lookups", "secondary_index_lookups", "toast_rows_written", "model_err:pk", "impl_err:primary-key", "model_affected_multi", "model_affected_zero", "explain_secondary_index_plan", "default_rows_inserted", "default_rows_inserted_with_returning"] {
+        for c in ["pk_point_lookups", "secondary_index_lookups", "toast_rows_written", "model_err:pk", "impl_err:primary-key", "model_affected_multi", "model_affected_zero", "explain_secondary_index_plan", "default_rows_inserted", "default_rows_inserted_with_returning", "op:INS+C", "op:DEL+C", "op:DELALL+C", "op:UPD+C", "op:INS+RB", "op:DEL+RB"] {
             rep.expect_nonzero(c);
         }
         let mut ex = Explorer::new(ctx);
